@@ -385,7 +385,16 @@ def setitem(run, cont, key, v, node):
         n = z3.Length(cont.t)
         run.implicit_raise(z3.And(key.t >= -n, key.t < n), "IndexError", node)
         i = norm_index(key.t, n)
-        return Val(ty, z3.Concat(z3.Extract(cont.t, 0, i), z3.Unit(v.t), z3.Extract(cont.t, i + 1, n - i - 1)))
+        new = z3.Concat(z3.Extract(cont.t, 0, i), z3.Unit(v.t), z3.Extract(cont.t, i + 1, n - i - 1))
+        if run.spec:
+            return Val(ty, new)
+        # element-wise view of the update (a consequence of the definition, stated so that invariants over positions
+        # do not have to go through concat / extract reasoning)
+        r = z3.FreshConst(ty.sort(), "seq_upd")
+        p = z3.FreshConst(z3.IntSort(), "p")
+        run.assume(z3.And(r == new, z3.Length(r) == n))
+        run.assume(z3.ForAll([p], z3.Implies(z3.And(0 <= p, p < n), r[p] == z3.If(p == i, v.t, cont.t[p]))))
+        return Val(ty, r)
     h = run.x.setitem_hook(cont)
     if h is not None:
         return h(run, cont, key, v, node)
